@@ -101,7 +101,12 @@ def apply_edit(root, edit, now_ns):
         if st is not None:
             os.unlink(p)
         os.symlink(out, p)
-        _stamp(p, now_ns, follow=False)
+        # ... and, for reports made WITHOUT --symbolic-links (edit["old_link"]), every other one of those links carries
+        # the old time itself (restored by `cp -a` / `rsync -a`): no time tells the replacement then, the file type does
+        # ("not a regular file": the changed file is left out).  In a -S report a link is a legitimate member and only
+        # the link's own time can tell - that case is outside the property's premise and is not generated.
+        _stamp(p, now_ns - 30 * 86400 * 10**9 if old_twin and edit.get("old_link") and sum(uid.encode()) % 4 == 0 else now_ns,
+               follow=False)
     elif k == "touch":
         if st is None:
             return False
